@@ -485,7 +485,20 @@ func createTable(r *Report, p *Program, rule string) {
 	}
 	paths, err := engine.EnumPaths(f, engine.EnumOpts{Start: l.Body, Leave: func(b *ssa.BasicBlock) bool { return b == l.Header || b == l.Exit },
 		Effect: func(in ssa.Instruction) bool {
-			return isSinkOrThinWrapper(p, in, "Create") || isSinkOrThinWrapper(p, in, "Patch") || isCallTo(in, "builtin.append")
+			if isSinkOrThinWrapper(p, in, "Create") || isSinkOrThinWrapper(p, in, "Patch") || isCallTo(in, "builtin.append") {
+				return true
+			}
+			// a helper that carries the create / apply request is that request
+			if ci, isC := in.(ssa.CallInstruction); isC {
+				if h := engine.StaticFn(ci.Common()); h != nil && h != f {
+					for _, sg := range calleeVerbSigs(p, h, 1) {
+						if strings.Contains(sg, "Create") || strings.Contains(sg, "Patch") {
+							return true
+						}
+					}
+				}
+			}
+			return false
 		}})
 	ok, why := err == nil, ""
 	if err != nil {
